@@ -50,6 +50,10 @@ UPD_ERR = {'attr': {'1': 0}, 'nlri': [], 'withdraw': [], 'sub_error': 9, 'err_da
 # a record longer than the largest BGP message (an UPDATE of many prefixes is one line of more than 4096 characters)
 UPD_XL = {'attr': {'1': 0, '2': [[2, [65001, 65002]]], '3': '10.0.0.1'},
           'nlri': ['10.%d.%d.0/24' % (i // 250, i % 250) for i in range(420)], 'withdraw': []}
+# the largest legal UPDATE: 4096 octets hold about 1300 two-octet prefixes - one line of about 25 000 characters (round 10: a
+# recovery that reads only the last 16 KB of the newest file was unseen while no torn tail was longer than that)
+UPD_XXL = {'attr': {'1': 0, '2': [[2, [65001]]], '3': '10.0.0.1'},
+           'nlri': ['%d.%d.0.0/16' % (10 + i // 256, i % 256) for i in range(1300)], 'withdraw': []}
 
 PAYLOADS = {
     'update': [UPD_S, UPD_M, UPD_L, UPD_XL, {'attr': {}, 'nlri': [], 'withdraw': []}, {'x': 'line1\nline2 é "q"'}],
@@ -356,6 +360,13 @@ def boundary_histories():
     hs.append([['cb', 'update', UPD_S], ['restart'], ['crash', 'update', UPD_S, 3], ['cb', 'update', UPD_S], ['restart']] + CONT)
     # the last complete record before a restart is longer than 4096 characters
     hs.append([['restart'], ['cb', 'update', UPD_S], ['cb', 'update', UPD_XL], ['restart'], ['cb', 'update', UPD_S], ['restart']] + CONT)
+    # a torn tail longer than any read-ahead window a recovery might use (powers of two and their neighbours), with and without
+    # a complete record before it
+    nxx = len(I.record_text(I.BASE, 1, 2, UPD_XXL))
+    for off in (4095, 4096, 4097, 8191, 8192, 8193, 16383, 16384, 16385, 20000, nxx - 1, nxx):
+        if off <= nxx:
+            hs.append([['restart'], ['crash', 'update', UPD_XXL, off], ['restart']] + CONT)
+            hs.append([['restart'], ['cb', 'update', UPD_S], ['cb', 'update', UPD_XXL], ['crash', 'update', UPD_XXL, off], ['restart']] + CONT)
     # check_file_size called directly, keepalives
     hs.append([['restart'], ['cb', 'check_file_size', None], ['cb', 'keepalive', None], ['tick', 3], ['cb', 'check_file_size', None],
                ['cb', 'keepalive', None], ['restart']] + CONT)
